@@ -111,6 +111,12 @@ Section Sort.
   Definition sort_vals (l : list Z) : list Z :=
     if Nat.ltb (length l) 2 then l else
     match qsort (length l) l with Some r => r | None => l end.
+
+  (* the number of frames of QuickSort::sort live at the deepest point of `void sort()` on a list holding l:
+     none when sort() returns at once (fewer than two elements).  The model driver prints it next to the
+     sorted list; the harness prints the number of distinct frames of QuickSort::sort it saw. *)
+  Definition sort_depth (l : list Z) : nat :=
+    if Nat.ltb (length l) 2 then O else qdepth (length l) l.
 End Sort.
 
 (* ------------------------------------------------------------------------------------- *)
